@@ -8,6 +8,8 @@ E1_SOURCES = ["e1_main.cpp"] + sorted(os.path.basename(p) for p in glob.glob(os.
 
 # global deadlines (seconds) after which a tier reports the bound it completed with exhaustive:false
 DEADLINE = {"quick": 240.0, "thorough": 3000.0}
+# wall-clock budget of one whole thorough check (all base assignments and passes together); each explorer run gets an equal share of what is left
+BUDGET = {"quick": 10 * 240.0, "thorough": 4500.0}
 
 
 def constants():
@@ -24,9 +26,9 @@ def build_e1(opt=None, variant="plain"):
     return b, exe, t
 
 
-def run_e1(exe, prop, tier, out, K, extra=(), use_seed=None):
+def run_e1(exe, prop, tier, out, K, extra=(), use_seed=None, deadline=None):
     cmd = [exe, "--prop", prop, "--tier", tier, "--seed", str(seed() if use_seed is None else use_seed), "--out", out, "--jobs", str(vbuild.NCPU),
-           "--deadline", str(DEADLINE[tier]), "--K", repr(K)] + list(extra)
+           "--deadline", str(deadline or DEADLINE[tier]), "--K", repr(K)] + list(extra)
     r = subprocess.run(cmd, stdout=subprocess.PIPE, stderr=subprocess.STDOUT, text=True)
     recs = []
     if os.path.exists(out):
@@ -116,7 +118,7 @@ def merge(recs, rep, K, prop):
         "distinct_evaluator_keys": len(stats),
         "max_error_ratio_per_key_top": [{"key": k, "max_err_over_uS": r, "n": n} for k, r, n in worst[:40]],
         "uncovered_api": ["%s %s/%s" % u for u in uncovered],
-        "caps_hit": "deadline %.0fs" % DEADLINE[rep.tier] if timed_out else "none",
+        "caps_hit": "wall-clock budget of the check (%.0fs, shared by its explorer runs)" % BUDGET[rep.tier] if timed_out else "none",
     })
     return stats, per_system
 
@@ -131,14 +133,24 @@ def check(prop, tier):
     allrecs, builds = [], []
     # thorough: all four vetted base assignments (seed, seed+1, seed+2, seed+3 mod 4); quick: the one selected by VERIF_SEED
     seeds = [(seed() + k) % 4 for k in range(4)] if tier == "thorough" else [seed() % 4]
+    t_start = time.time()
+    runs_left = [sum(len(seeds) if v == "plain" else 1 for v, _ in variants) + (1 if prop in ("C09", "C20") else 0)]
+
+    def share():
+        left = BUDGET[tier] - (time.time() - t_start)
+        d = max(60.0, left / max(1, runs_left[0])); runs_left[0] -= 1
+        return min(d, DEADLINE[tier])
+    # the precision property does not need the d<=2 ball: its thorough tier is the thorough point lattice with d<=1 around all four bases,
+    # the full-mantissa long double pass and the -O2 build
+    main_extra = ["--maxdev", "1"] if (precision and tier == "thorough") else []
     for variant, opt in variants:
         b, exe, tcomp = build_e1(opt=opt, variant=variant)
         out = os.path.join(b.dir, "e1.out")
         for sd in (seeds if variant == "plain" else seeds[:1]):
-            recs = run_e1(exe, prop, tier, out, K, use_seed=sd)
+            recs = run_e1(exe, prop, tier, out, K, use_seed=sd, extra=main_extra, deadline=share())
             if precision and variant == "plain" and sd == seeds[0]:
                 # long-double-only pass with inputs that are not representable in double
-                recs2 = run_e1(exe, prop, tier, out, K, use_seed=sd, extra=["--ldfull", "--maxdev", "1"])
+                recs2 = run_e1(exe, prop, tier, out, K, use_seed=sd, extra=["--ldfull", "--maxdev", "1"], deadline=share())
                 for r in recs2:
                     if r["k"] in ("system", "worker"):
                         r["system"] = r["system"] + "[ld62]"
@@ -147,7 +159,7 @@ def check(prop, tier):
                 # the two library values of a reduction are also compared at working precision (both carry at most K(C09) u*S of
                 # roundoff each), with full-mantissa long double inputs
                 K20 = 2.0 * float(constants()["C09_K"])
-                recs2 = run_e1(exe, prop, tier, out, K20, use_seed=sd, extra=["--ldfull", "--maxdev", "1"])
+                recs2 = run_e1(exe, prop, tier, out, K20, use_seed=sd, extra=["--ldfull", "--maxdev", "1"], deadline=share())
                 for r in recs2:
                     if r["k"] in ("system", "worker"):
                         r["system"] = r["system"] + "[ld64,K=%g]" % K20
